@@ -58,6 +58,8 @@ CONSTANTS
   OnlyDebouncer,  \* BOOLEAN: the closers call refreshDebouncer.stop() directly (debouncer in isolation)
   MaxCtlFail,     \* control-connection failures noticed by the refresh flusher's own query
   Defect_StopHandshake, Defect_HeartbeatStart, Defect_LatePool, Defect_ReconnectInline, Defect_ReconnectWindow,
+  Defect_CloseHoldsStateLock, \* TRUE: Session.Close keeps sessionStateMu for its whole duration (setupConn reads it)
+  Defect_QuitNonBlocking,     \* TRUE: controlConn.close signals the heartbeat with a non-blocking send
   Defect_EvStopUnderLock,  \* TRUE: eventDebouncer.stop() takes e.mu before the quit hand-off (the flusher needs e.mu to flush)
   Defect_EvSyncCallback,   \* TRUE: the flusher runs the event handler itself, under e.mu, instead of on its own goroutine
   EvEager,                 \* TRUE: the flusher takes a free e.mu in the same step as the timer case (no hook separates them)
@@ -309,15 +311,31 @@ HbProbe ==
 \* nothing when closing, when another reconnect is in progress or when the dial fails
 ReconnectProceeds == ccState # "closing" /\ ~reconn /\ ~ctxCancelled
 
+\* sessionStateMu: Close takes it for its flag updates only - or (Defect_CloseHoldsStateLock) from its first statement
+\* to its return; setupConn of a reconnect reads it (Session.initialized())
+StateLockHeld == Defect_CloseHoldsStateLock /\ \E k \in Closers : kpc[k] \notin {"idle", "done"}
+
+\* the heartbeat goroutine's reconnect(): the `closing` check and the dial ...
 HbReconnect ==
   /\ hbPc = "reconnect"
   /\ IF ~ReconnectProceeds
-     THEN /\ hbPc' = "select"
-          /\ UNCHANGED <<reqPc, rdHasBc, rdBc, rdNow, ccConnOpen, reconn>>
+     THEN hbPc' = "select" /\ UNCHANGED reconn
+     ELSE hbPc' = "hbsetup" /\ reconn' = TRUE
+  /\ UNCHANGED <<ccState, ccConnOpen, nProbeFail, rcPc, nCtlFail>>
+  /\ UNCHANGED <<rdVars, evVars, seVars>>
+
+\* ... then setupConn on the new connection (system.local, REGISTER, Session.initialized() under sessionStateMu.RLock),
+\* the second look at `closing`, and refreshRing()
+HbSetup ==
+  /\ hbPc = "hbsetup"
+  /\ ~StateLockHeld
+  /\ IF ctxCancelled \/ ccState = "closing"
+     THEN /\ hbPc' = "select" /\ reconn' = FALSE           \* failed, or installed and closed again by reconnect itself
+          /\ UNCHANGED <<ccConnOpen, reqPc, rdHasBc, rdBc, rdNow>>
      ELSE /\ hbPc' = "waitrefresh"
-          /\ reconn' = TRUE
-          /\ ccConnOpen' = TRUE                    \* a new control connection is set up
+          /\ ccConnOpen' = TRUE
           /\ RefreshNowBy(HB)
+          /\ UNCHANGED reconn
   /\ UNCHANGED <<ccState, nProbeFail, rcPc, nCtlFail>>
   /\ UNCHANGED <<rdStopped, rdTimer, rdQuit, rdDone, flPc, flCur, nDebounce>>
   /\ UNCHANGED <<evVars, seVars>>
@@ -405,6 +423,7 @@ Goto(k, p) == kpc' = [kpc EXCEPT ![k] = p]
 
 KFlag(k) ==
   /\ kpc[k] = "idle"
+  /\ ~StateLockHeld
   /\ IF OnlyDebouncer
      THEN Goto(k, "rs_mark") /\ UNCHANGED isClosing
      ELSE IF isClosing /\ Mut # "noguard"
@@ -425,10 +444,16 @@ KPools(k) ==
 KControl(k) ==
   /\ kpc[k] = "control"
   /\ IF ccState = "started"
-     THEN ccState' = "closing" /\ Goto(k, "cc_send")
+     THEN /\ ccState' = "closing"
+          /\ IF Defect_QuitNonBlocking
+             THEN \* select { case quit <- : default: }: taken only by a heartbeat that sits in its select right now
+                  /\ hbPc' = IF hbPc = "select" THEN "exited" ELSE hbPc
+                  /\ Goto(k, "cc_conn")
+             ELSE Goto(k, "cc_send") /\ UNCHANGED hbPc
      ELSE /\ ccState' = IF Defect_HeartbeatStart THEN ccState ELSE "closing"
           /\ Goto(k, "cc_conn")
-  /\ UNCHANGED <<hbPc, ccConnOpen, nProbeFail, reconn, rcPc, nCtlFail>>
+          /\ UNCHANGED hbPc
+  /\ UNCHANGED <<ccConnOpen, nProbeFail, reconn, rcPc, nCtlFail>>
   /\ UNCHANGED <<isClosing, isClosed, poolsClosed, tracked, stray, ctxCancelled, nAddHost, panicked, qres>>
   /\ UNCHANGED <<rdVars, evVars>>
 
@@ -566,7 +591,7 @@ SysNext ==
   \/ RcReconnect \/ RcInstall \/ RcAnswered
   \/ \E e \in EvDeb : EvSelectTimer(e) \/ EvFlLock(e) \/ EvFlushLocked(e)
   \/ EvCallback \/ EvDebUnlock
-  \/ HbStart \/ HbProbe \/ HbReconnect \/ HbAnswered
+  \/ HbStart \/ HbProbe \/ HbReconnect \/ HbSetup \/ HbAnswered
   \/ \E k \in Closers : kpc[k] # "idle" /\ CloseStep(k)
 
 \* the environment (not obliged to act)
@@ -609,7 +634,7 @@ Fairness ==
   /\ WF_vars(RcReconnect \/ RcInstall \/ RcAnswered)
   /\ WF_vars((\E e \in EvDeb : EvSelectTimer(e) \/ EvFlLock(e) \/ EvFlushLocked(e)) \/ EvCallback)
   /\ WF_vars(EvDebUnlock)
-  /\ WF_vars(HbStart \/ HbProbe \/ HbReconnect \/ HbAnswered)
+  /\ WF_vars(HbStart \/ HbProbe \/ HbReconnect \/ HbSetup \/ HbAnswered)
   /\ \A k \in Closers : WF_vars(kpc[k] # "idle" /\ CloseStep(k))
 
 Spec == Init /\ [][Next]_vars /\ Fairness
@@ -620,7 +645,7 @@ SpecEager == Init /\ [][NextEager]_vars
 TypeOK ==
   /\ flPc \in {"select", "woke", "refreshing", "selfwait", "exited"}
   /\ rcPc \in {"idle", "reconnect", "dial", "wait", "done"}
-  /\ hbPc \in {"spawned", "select", "probe", "reconnect", "waitrefresh", "exited"}
+  /\ hbPc \in {"spawned", "select", "probe", "reconnect", "hbsetup", "waitrefresh", "exited"}
   /\ reqPc \in [Reqs -> {"idle", "waiting", "answered", "closed"}]
   /\ rdNow \in 0 .. 1 /\ tracked \in 0 .. 1 + MaxAddHost /\ stray \in 0 .. MaxAddHost
 
